@@ -106,13 +106,29 @@ def gen_case(r):
 	else:
 		ma = r.randbytes(ln)
 	si4 = r.random() < 0.5
-	pre = sorted(r.sample(range(1024), r.randint(0, 5))) if si4 and r.random() < 0.7 else []
-	return {"ca": sorted(ca), "ma": ma, "si4": si4, "pre": pre}
+	# flags left behind by earlier decodes: HOPP flags of the previous cell allocation (also when si4 = 0: the cell allocation
+	# may have been replaced since the SI 4 decode that set them), inside and outside the current cell allocation, and
+	# neighbour-cell / report flags on any channel
+	pre = []
+	if r.random() < 0.6:
+		pre = r.sample(range(1024), r.randint(0, 5))
+		if ca and r.random() < 0.5:
+			pre += r.sample(sorted(ca), min(len(ca), r.randint(1, 3)))
+			lo, hi = min(ca), max(ca)
+			pre += [a for a in (lo - 1, lo + 1, hi - 1, hi + 1, (lo + hi) // 2) if 0 <= a < 1024 and r.random() < 0.5]
+		pre = sorted(set(pre))
+	other = []
+	if r.random() < 0.4:
+		chans = r.sample(range(1024), r.randint(1, 6)) + (r.sample(sorted(ca), min(len(ca), 2)) if ca else [])
+		other = [(a, r.choice((0x04, 0x08, 0x10, 0x1c, 0x20, 0x40, 0x80, 0xe0, 0xfc))) for a in sorted(set(chans))]
+	return {"ca": sorted(ca), "ma": ma, "si4": si4, "pre": pre, "other": other}
 
 
 def render(idx, c):
-	return ("N %d\nC %d %d %s %d %s %d %s\n" % (idx, int(c["si4"]), len(c["ma"]), c["ma"].hex() or "-",
-		len(c["ca"]), " ".join(map(str, c["ca"])), len(c["pre"]), " ".join(map(str, c["pre"])))).encode()
+	other = c.get("other", [])
+	return ("N %d\nC %d %d %s %d %s %d %s %d %s\n" % (idx, int(c["si4"]), len(c["ma"]), c["ma"].hex() or "-",
+		len(c["ca"]), " ".join(map(str, c["ca"])), len(c["pre"]), " ".join(map(str, c["pre"])),
+		len(other), " ".join("%d %d" % (a, m) for a, m in other))).encode()
 
 
 def mechanism_of(c, what):
@@ -140,6 +156,14 @@ def judge(ctx, binary, cases, sub):
 		p = out[0].split()
 		rc = int(p[1])
 		hopp_after = [int(x) for x in out[1].split()[1:]]
+		if len(out) > 2 and out[2].startswith("X"):
+			ctx.count("other_flags_compared")
+			if int(out[2].split()[1]) != 0:
+				ctx.violation(sub, {"case": c, "output": out},
+					what = "the decoder changed flags other than FREQ_TYPE_HOPP on %s channel(s)" % out[2].split()[1])
+				continue
+		if c["pre"] and not c["si4"]:
+			ctx.count("stale_hopp_flags_with_si4_off")
 		if not ok:
 			ctx.count("rejected_expected")
 			if rc >= 0:
